@@ -425,6 +425,7 @@ class Program:
                 self.edge_sites.setdefault((c.body.id, cu), []).append(c)
                 self.closure_call_sites.setdefault(cu, []).append(c)
         self._resolve_fnptr_params()
+        self._resolve_generic_fn_params()
         self.callers = {b.id: set() for b in self.bodies}
         for a, bs in self.edges.items():
             for b in bs:
@@ -466,6 +467,54 @@ class Program:
                     self.edges[body.id].add(tu)
                     self.edge_sites.setdefault((body.id, tu), []).append(c)
         self.callback_sites = keep
+
+    def _resolve_generic_fn_params(self):
+        """`f(..)` on a generic `F: Fn*` parameter of a local body (MIR: an unresolved Fn::call / FnMut::call_mut /
+        FnOnce::call_once): the callee is whatever the body's callers pass.  When every caller is local and passes a
+        closure / fn item of this crate, the site calls exactly those (and runs them *here*, under whatever this body
+        holds); otherwise it is a callback into code the engine does not own."""
+        self.generic_cb_targets = {}
+        self.generic_callbacks = set()
+        FN_CALLS = ('std::ops::Fn::call', 'std::ops::FnMut::call_mut', 'std::ops::FnOnce::call_once')
+        for body in self.bodies:
+            for c in body.live_calls:
+                if c.callee not in FN_CALLS or c.is_virtual or c.is_indirect or c.ruid is not None or not c.args:
+                    continue
+                if c.fn and c.fn['resolved'].get('kind') not in ('unresolved', 'error', None):
+                    continue
+                fo = single_origin(trace_operand(body, c.args[0], through_calls=set()))
+                targets = []
+                okk = fo is not None and fo.kind == 'param' and not fo.proj and not (body.is_pub and not body.is_closure and self._publicly_reachable(body))
+                sites = []
+                if okk:
+                    for b2 in self.bodies:
+                        for cc in b2.live_calls:
+                            if cc.ruid == body.id:
+                                sites.append(cc)
+                    okk = bool(sites)
+                for cc in sites if okk else []:
+                    if fo.data - 1 >= len(cc.args):
+                        okk = False; break
+                    ao = single_origin(trace_operand(cc.body, cc.args[fo.data - 1], through_calls=set()))
+                    if ao is not None and ao.kind == 'agg' and ao.data[2].get('agg') == 'closure' and ao.data[2]['closure'] in self.by_id:
+                        targets.append(ao.data[2]['closure'])
+                    elif ao is not None and ao.kind == 'const' and isinstance(ao.data, dict) and ao.data.get('fn') and ao.data['fn'].get('crate') == self.f.crate:
+                        if ao.data['fn']['uid'] in self.by_id:
+                            targets.append(ao.data['fn']['uid'])
+                    else:
+                        okk = False; break
+                if not okk:
+                    self.generic_callbacks.add((body.id, c.bb))
+                    self.callback_sites.append(c)
+                    continue
+                self.generic_cb_targets[(body.id, c.bb)] = targets
+                for tu in targets:
+                    self.edges[body.id].add(tu)
+                    self.edge_sites.setdefault((body.id, tu), []).append(c)
+
+    def _publicly_reachable(self, body):
+        """can code outside the crate name this fn? (pub item of a pub type; approximated by `pub`)"""
+        return bool(body.is_pub)
 
     def _generic_edges(self):
         """external generic code that calls back into local trait impls: Vec<T>/Box<T>/Option<T>
@@ -515,6 +564,8 @@ class Program:
     def is_callback(self, c):
         """a call into code the engine does not own (dyn Fn / fn pointer / generic F) — not an indirect
         call that was resolved to crate fn items"""
+        if (c.body.id, c.bb) in getattr(self, 'generic_callbacks', ()):
+            return True
         return (c.is_virtual or c.is_indirect) and (c.body.id, c.bb) not in self.resolved_indirect
 
     def reach(self, entry_ids, stop=()):
